@@ -139,6 +139,31 @@ def make_chooser(rng, strategy, n_tasks):
                     return by[o]
             return ta if ta is not None else runnable[0]
         return ch
+    if strategy[0] == 'targeted2':
+        # two pre-emptions: a runs until its k1-th transaction, b until its
+        # k2-th, then a to completion, then everybody else
+        a, k1, b, k2 = strategy[1], strategy[2], strategy[3], strategy[4]
+        state = {'phase': 0}
+
+        def ch(sim, runnable):
+            by = {t.idx: t for t in runnable}
+            if state['phase'] == 0:
+                ta = by.get(a)
+                if ta is not None and ta.ntxn < k1:
+                    return ta
+                state['phase'] = 1
+            if state['phase'] == 1:
+                tb = by.get(b)
+                if tb is not None and tb.ntxn < k2:
+                    return tb
+                state['phase'] = 2
+            if state['phase'] == 2:
+                ta = by.get(a)
+                if ta is not None:
+                    return ta
+                state['phase'] = 3
+            return by.get(b) or runnable[0]
+        return ch
     raise ValueError(strategy)
 
 
@@ -161,7 +186,9 @@ class ConcRun(object):
 
     def __init__(self, world, seed, focus, knobs=None, setup_ops=None,
                  batch=None, schedule=None, n_batch=None, strategy=None,
-                 n_schedules=1, enumerate_targeted=False):
+                 n_schedules=1, enumerate_targeted=False,
+                 enumerate_pairs=False):
+        self.enumerate_pairs = enumerate_pairs
         self.n_schedules = n_schedules
         self.enumerate_targeted = enumerate_targeted
         self.serial_cache = {}
@@ -566,6 +593,14 @@ class ConcRun(object):
                             strategies.append(('targeted', a, k, list(o)))
                 for _ in range(max(0, self.n_schedules)):
                     strategies.append(('uniform',))
+                if self.enumerate_pairs and n >= 2:
+                    # every schedule with two pre-emptions between the first
+                    # two requests of the batch (both roles)
+                    for (a, b) in ((0, 1), (1, 0)):
+                        for k1 in range(1, tasks[a].ntxn + 1):
+                            for k2 in range(1, tasks[b].ntxn + 1):
+                                strategies.append(
+                                    ('targeted2', a, k1, b, k2))
             if len(self.findings) > before and self.fixed_schedule is None:
                 break   # report the first failing schedule of this batch
         return self.findings
